@@ -1040,10 +1040,28 @@ func ssaHash(fn *ssa.Function) string {
 // when a function has many paths); unknown counts as feasible.
 func (E *Engine) feasible(st *State) bool {
 	E.feasCount++
-	hyps, _ := E.prepare(st.pc, nil)
+	// quantifier-free part of the path condition only (a cheap over-approximation of feasibility)
+	var hyps []*Term
+	for _, t := range st.pc {
+		if !mentionsQuantifier(t) {
+			hyps = append(hyps, t)
+		}
+	}
 	script := Script(hyps, nil, false, nil)
 	// a quick probe only: 150 ms soft limit inside the solver
 	script = strings.Replace(script, "(check-sat)", "(set-option :timeout 150)\n(check-sat)", 1)
 	res, _ := runSolver("z3-new", script, 1)
 	return res != "unsat"
+}
+
+func mentionsQuantifier(t *Term) bool {
+	if t.Op == "forall" || t.Op == "exists" || len(t.Bound) > 0 {
+		return true
+	}
+	for _, a := range t.Args {
+		if mentionsQuantifier(a) {
+			return true
+		}
+	}
+	return false
 }
